@@ -38,6 +38,9 @@ ATTR = {
     ('variant', 'pos'): ('v_pos', 'int'), ('variant', 'ref'): ('v_ref_s', 'str'), ('variant', 'alt'): ('v_alt_s', 'str'),
     ('vstat', 'pos'): ('vpos', 'int'), ('vstat', 'ref_len'): ('vrl', 'int'), ('vstat', 'alt_len'): ('val', 'int'),
     ('po', 'pos'): ('fst', 'int'), ('po', 'offset'): ('snd', 'int'),
+    ('mrow', 'ref_pos'): ('mr_ref_pos', 'int'), ('mrow', 'alt_pos'): ('mr_alt_pos', 'int'), ('mrow', 'end'): ('mr_end', 'int'),
+    ('mrow', 'start_exon_index'): ('mr_start_exon', 'option:int'), ('mrow', 'end_exon_index'): ('mr_end_exon', 'option:int'),
+    ('mrow', 'start_ppe_start'): ('mr_start_ppe', 'option:int'), ('mrow', 'end_ppe_start'): ('mr_end_ppe', 'option:int'),
     ('counts', 'too_short'): ('too_short', 'int'), ('counts', 'in_range'): ('in_range_n', 'int'), ('counts', 'too_long'): ('too_long', 'int'),
     ('opt', 'oligo_min_length'): ('o_min', 'int'), ('opt', 'oligo_max_length'): ('o_max', 'int'),
     ('kgpo', 'ref_range'): ('kg_range', 'range'), ('kgpo', 'alt_length'): ('kg_alt_length', 'int'),
@@ -47,6 +50,9 @@ ATTR = {
 # mutable records: methods that assign self.<field> return the new record (next to their value); fields re-read from the source
 MUT_RECORDS = {'OligoGenerationInfo': ('counts', 'mkCounts', [('too_short', 'too_short'), ('in_range', 'in_range_n'), ('too_long', 'too_long')])}
 # records whose field list (names, annotations, order) is re-read from the source before their attributes are translated
+# records of which only some fields are read: those fields must be declared in the source with these annotations
+PARTIAL_FIELDS = {'MetaRow': ('mrow', {'ref_pos': 'int', 'alt_pos': 'int', 'end': 'int', 'start_exon_index': 'int | None', 'end_exon_index': 'int | None',
+                                        'start_ppe_start': 'int | None', 'end_ppe_start': 'int | None'})}
 RECORD_FIELDS = {'GenomicPositionOffsets': ('kgpo', [('ref_range', 'UIntRange'), ('alt_length', 'int'), ('_pos_offsets', 'list[PosOffset]'), ('_ref_del_mask', 'array'),
                                                     ('_shift_mask', 'array'), ('_alt_offsets', 'list[PosOffset]'), ('_alt_ins_mask', 'array')])}
 # dataclasses built positionally -> (type tag, field names in order, field types); the field order is re-read from the source (module_facts)
@@ -54,9 +60,9 @@ CTOR = {'PosOffset': ('po', ['pos', 'offset'], ['int', 'int'])}
 # python annotation -> model type tag
 ANNOT = {'int': 'int', 'bool': 'bool', 'Strand': 'strand', 'Exon': 'exon', 'UIntRange': 'range', 'IntPatternBuilder': 'pt', 'CdsSeq': 'cds',
          'TargetonConfig': 'tcfg', 'str': 'str', 'str | None': 'ostr', 'VariantType': 'vtype', 'Variant': 'variant', 'VarStats': 'vstat',
-         'SearchType': 'search', 'SearchType | None': 'option:search', 'Options': 'opt', 'OligoGenerationInfo': 'counts', 'Callable[[int], bool]': 'fn:int->bool', 'list[VarStats]': 'list:vstat', 'Iterable[VarStats]': 'list:vstat', 'list[PosOffset]': 'list:po', 'array': 'list:int'}
+         'SearchType': 'search', 'SearchType | None': 'option:search', 'Options': 'opt', 'OligoGenerationInfo': 'counts', 'MetaRow': 'mrow', 'int | None': 'option:int', 'Callable[[int], bool]': 'fn:int->bool', 'list[VarStats]': 'list:vstat', 'Iterable[VarStats]': 'list:vstat', 'list[PosOffset]': 'list:po', 'array': 'list:int'}
 COQ_TYPE = {'int': 'Z', 'bool': 'bool', 'strand': 'strand', 'exon': 'exon', 'range': 'range', 'pt': 'pt', 'cds': 'cds_seq', 'tcfg': 'tcfg', 'unit': 'unit',
-            'str': 'string', 'ostr': '(option string)', 'vtype': 'vtype', 'strenum': 'string', 'variant': 'variant', 'vstat': 'vstat', 'po': '(Z * Z)', 'kgpo': 'kgpo', 'search': 'search', 'counts': 'counts', 'opt': 'opts'}
+            'str': 'string', 'ostr': '(option string)', 'vtype': 'vtype', 'strenum': 'string', 'variant': 'variant', 'vstat': 'vstat', 'po': '(Z * Z)', 'kgpo': 'kgpo', 'search': 'search', 'counts': 'counts', 'opt': 'opts', 'mrow': 'meta_row'}
 
 
 def coq_type(t: str) -> str:
@@ -291,6 +297,10 @@ class Translator:
                 elif isinstance(op, (ast.Is, ast.IsNot)):
                     a, ta = self.expr(left, env, binds)
                     b, tb = self.expr(right, env, binds)
+                    if tb == 'none' and ta.startswith('option:'):
+                        terms.append(f'(match {a} with None => true | Some _ => false end)' if isinstance(op, ast.Is) else f'(match {a} with None => false | Some _ => true end)')
+                        left = right
+                        continue
                     if tb != 'none' or ta != 'ostr':
                         raise TransError('`is` is only translated for an optional string against None')
                     terms.append(f'(ois_none {a})' if isinstance(op, ast.Is) else f'(negb (ois_none {a}))')
@@ -360,7 +370,7 @@ class Translator:
                 return v, 'str'
             if t == 'vtype' and e.attr == 'value':
                 return f'(vtype_value {v})', 'int'
-            if any(t == tag for tag, _ in RECORD_FIELDS.values()) and t not in self.records:
+            if (any(t == tag for tag, _ in RECORD_FIELDS.values()) or any(t == tag for tag, _ in PARTIAL_FIELDS.values())) and t not in self.records:
                 raise TransError(f'fields of {t} not confirmed in the source')
             key = (t, e.attr)
             if key in ATTR:
@@ -711,6 +721,22 @@ class Translator:
             env2[name] = (f'{cname(name)}_v', t[7:])
             b, tb = self.block(rest, env2)
             return f'match {v} with None => {a} | Some {cname(name)}_v => {b} end', self.join(ta, tb)
+        # the same for a pure attribute chain (self.field): the rest of the block sees its value through the narrowing table
+        if isinstance(st, ast.If) and not st.orelse and isinstance(st.test, ast.Compare) and len(st.test.ops) == 1 and isinstance(st.test.ops[0], ast.Is) \
+                and isinstance(st.test.left, ast.Attribute) and self.pure_chain(st.test.left) and isinstance(st.test.comparators[0], ast.Constant) \
+                and st.test.comparators[0].value is None and self.ends(st.body):
+            pre = []
+            v, t = self.expr(st.test.left, env, pre)
+            if t.startswith('option:') and not pre:
+                a, ta = self.block(st.body, env)
+                nv = self.tmp()
+                saved = dict(self.narrow)
+                self.narrow[ast.dump(st.test.left)] = (nv, t[7:])
+                try:
+                    b, tb = self.block(rest, env)
+                finally:
+                    self.narrow = saved
+                return f'match {v} with None => {a} | Some {nv} => {b} end', self.join(ta, tb)
         # `assert x and <condition on x>` on an optional range (a range is never empty, hence truthy)
         if isinstance(st, ast.Assert) and isinstance(st.test, ast.BoolOp) and isinstance(st.test.op, ast.And) and isinstance(st.test.values[0], ast.Name) \
                 and st.test.values[0].id in env and env[st.test.values[0].id][1] == 'option:range':
@@ -1118,6 +1144,12 @@ class Translator:
                             or any(isinstance(st, ast.FunctionDef) for st in c.body) or not any('dataclass' in ast.unparse(d) for d in c.decorator_list):
                         raise TransError(f'dataclass {c.name}: fields {fields}')
                     self.ctors.add(c.name)
+                if isinstance(c, ast.ClassDef) and c.name in PARTIAL_FIELDS:
+                    fields = {st.target.id: ast.unparse(st.annotation) for st in c.body if isinstance(st, ast.AnnAssign) and isinstance(st.target, ast.Name)}
+                    tag, want = PARTIAL_FIELDS[c.name]
+                    if any(fields.get(k_) != v_ for k_, v_ in want.items()):
+                        raise TransError(f'record {c.name}: fields {fields}')
+                    self.records.add(tag)
                 if isinstance(c, ast.ClassDef) and c.name in MUT_RECORDS:
                     fields = [(st.target.id, ast.unparse(st.annotation)) for st in c.body if isinstance(st, ast.AnnAssign) and isinstance(st.target, ast.Name)]
                     if fields != [(f_, 'int') for f_, _ in MUT_RECORDS[c.name][2]]:
